@@ -124,6 +124,10 @@ func (ci *crdIpam) handleFIPUnassign(obj interface{}) error {
 	if !ok {
 		return fmt.Errorf("%s already been released", ipStr)
 	}
+	if _, reserved := allocated.Labels[constant.ReserveFIPLabel]; !reserved {
+		// a late delete event, the ip has been allocated again after the reserved object was deleted
+		return fmt.Errorf("%s is not reserved any more but allocated to %s", ipStr, allocated.Key)
+	}
 	ci.syncCacheAfterDel(allocated)
 	glog.Infof("released reserved ip %s", ipStr)
 	return nil
